@@ -108,3 +108,94 @@ pub fn fixed_programs() -> Vec<(String, Vec<Stmt>)> {
     ];
     v.drain(..).map(|(n, p)| (n.to_string(), p)).collect()
 }
+
+/// Probe x wrapper x hole matrix: a small expression whose diagnostics are known (an undeclared
+/// name, an undeclared callee, a call with a wrong argument count, a qubit inside an arithmetic
+/// operator, or — as a control — a declared variable) is placed, bare or wrapped one level deep
+/// (parentheses, unary, cast, either side of several binary operators including the ones the
+/// analyser does not represent, call argument), in every expression position of the statement
+/// forms. The joint walk then demands exactly the diagnostics of the probe, on that statement.
+pub fn probe_matrix() -> Vec<(String, Vec<Stmt>)> {
+    let u3 = || Some(vec![int(0), int(0), int(0)]);
+    let prelude = || -> Vec<Stmt> {
+        vec![
+            decl(Ty::Int(None), "a", Some(int(1))),
+            decl(Ty::Int(None), "b", Some(int(2))),
+            decl(Ty::Bool, "go", Some(tru())),
+            qd("q"),
+            qr("r", 4),
+            decl(Ty::Bit(Some(bx(int(4)))), "c", None),
+            Stmt::Def { name: "fn".into(), params: vec![(ParamTy::Scalar(Ty::Int(None)), "p".into())], ret: Some(Ty::Int(None)), body: vec![Stmt::Return(Some(id("p")))] },
+        ]
+    };
+    let probes: Vec<(&str, Expr)> = vec![
+        ("declared", id("a")),
+        ("undeclared", id("zz")),
+        ("undeclared-callee", Expr::Call("nf".into(), vec![int(1)])),
+        ("wrong-arg-count", Expr::Call("fn".into(), vec![int(1), int(2)])),
+        ("undeclared-in-call", Expr::Call("fn".into(), vec![id("zz")])),
+        ("qubit-in-arithmetic", Expr::Paren(bx(Expr::Bin(BinOp::Add, bx(id("q")), bx(int(1)))))),
+        ("hw-qubit-in-arithmetic", Expr::Paren(bx(Expr::Bin(BinOp::Mul, bx(int(2)), bx(Expr::Hw("$0".into())))))),
+    ];
+    type W = (&'static str, fn(Expr) -> Expr);
+    let wrappers: Vec<W> = vec![
+        ("bare", |e| e),
+        ("paren", |e| Expr::Paren(bx(e))),
+        ("neg", |e| Expr::Un(UnOp::Neg, bx(e))),
+        ("cast", |e| Expr::Cast(Ty::Int(None), bx(e))),
+        ("add-left", |e| Expr::Bin(BinOp::Add, bx(e), bx(id("b")))),
+        ("mul-right", |e| Expr::Bin(BinOp::Mul, bx(id("b")), bx(e))),
+        ("shl-right", |e| Expr::Bin(BinOp::Shl, bx(id("b")), bx(e))),
+        ("call-arg", |e| Expr::Call("fn".into(), vec![e])),
+    ];
+    // boolean-valued wrappers, used where a condition is expected
+    let cond_wrappers: Vec<W> = vec![
+        ("eq-left", |e| Expr::Bin(BinOp::Eq, bx(e), bx(id("b")))),
+        ("neq-right", |e| Expr::Bin(BinOp::Neq, bx(id("b")), bx(e))),
+        ("lt-left", |e| Expr::Bin(BinOp::Lt, bx(e), bx(id("b")))),
+        ("ge-right", |e| Expr::Bin(BinOp::Ge, bx(id("b")), bx(e))),
+        ("logand-right", |e| Expr::Bin(BinOp::LogAnd, bx(id("go")), bx(Expr::Paren(bx(Expr::Bin(BinOp::Eq, bx(e), bx(int(1)))))))),
+        ("logor-left", |e| Expr::Bin(BinOp::LogOr, bx(Expr::Paren(bx(Expr::Bin(BinOp::Neq, bx(e), bx(int(1)))))), bx(id("go")))),
+    ];
+    type H = (&'static str, bool, Box<dyn Fn(Expr) -> Vec<Stmt>>);
+    let ix = |e: Expr| vec![Index::List(vec![IndexItem::Expr(e)])];
+    let holes: Vec<H> = vec![
+        ("decl-init", false, Box::new(|e| vec![decl(Ty::Int(None), "x", Some(e))])),
+        ("assign-rhs", false, Box::new(|e| vec![asg("a", e)])),
+        ("expr-stmt", false, Box::new(|e| vec![Stmt::ExprStmt(e)])),
+        ("if-cond", true, Box::new(|e| vec![Stmt::If { cond: e, then: blk(vec![]), els: None }])),
+        ("if-cond-else", true, Box::new(|e| vec![Stmt::If { cond: e, then: blk(vec![asg("a", int(1))]), els: Some(blk(vec![asg("b", int(2))])) }])),
+        ("while-cond", true, Box::new(|e| vec![Stmt::While { cond: e, body: blk(vec![Stmt::Break]) }])),
+        ("for-range-start", false, Box::new(|e| vec![Stmt::For { ty: Ty::Int(None), var: "i".into(), iter: ForIter::Range(e, None, int(9)), body: blk(vec![]) }])),
+        ("for-range-step", false, Box::new(|e| vec![Stmt::For { ty: Ty::Int(None), var: "i".into(), iter: ForIter::Range(int(0), Some(e), int(9)), body: blk(vec![]) }])),
+        ("for-range-stop", false, Box::new(|e| vec![Stmt::For { ty: Ty::Int(None), var: "i".into(), iter: ForIter::Range(int(0), None, e), body: blk(vec![]) }])),
+        ("for-set-element", false, Box::new(|e| vec![Stmt::For { ty: Ty::Int(None), var: "i".into(), iter: ForIter::Set(vec![int(1), e, int(3)]), body: blk(vec![]) }])),
+        ("switch-control", false, Box::new(|e| vec![Stmt::Switch { control: e, cases: vec![(vec![int(1)], vec![asg("a", int(1))])], default: Some(vec![]) }])),
+        ("gate-argument", false, Box::new(|e| vec![call("U", Some(vec![int(0), e, int(0)]), vec![o("q")])])),
+        ("gphase-argument", false, Box::new(|e| vec![Stmt::GPhase { mods: vec![], arg: e, operands: vec![] }])),
+        ("pow-argument", false, Box::new(move |e| vec![Stmt::GateCall { mods: vec![Modifier::Pow(e)], name: "U".into(), args: Some(vec![int(0), int(0), int(0)]), operands: vec![o("q")] }])),
+        ("qubit-index", false, Box::new(move |e| vec![call("U", Some(vec![int(0), int(0), int(0)]), vec![Operand::Indexed("r".into(), vec![Index::List(vec![IndexItem::Expr(e)])])])])),
+        ("measure-index", false, Box::new(move |e| vec![Stmt::Assign { target: LValue::Indexed("c".into(), vec![Index::List(vec![IndexItem::Expr(int(0))])]), op: AssignOp::Assign, value: Expr::Measure(Operand::Indexed("r".into(), vec![Index::List(vec![IndexItem::Expr(e)])])) }])),
+        ("assign-target-index", false, Box::new(move |e| vec![Stmt::Assign { target: LValue::Indexed("c".into(), vec![Index::List(vec![IndexItem::Expr(e)])]), op: AssignOp::Assign, value: Expr::Measure(o("q")) }])),
+        ("alias-range-start", false, Box::new(move |e| vec![Stmt::Alias { name: "al".into(), value: Expr::IndexedId("r".into(), vec![Index::List(vec![IndexItem::Range(e, None, int(2))])]) }])),
+        ("reset-index", false, Box::new(move |e| vec![Stmt::Reset(Operand::Indexed("r".into(), vec![Index::List(vec![IndexItem::Expr(e)])]))])),
+        ("barrier-index", false, Box::new(move |e| vec![Stmt::Barrier(vec![o("q"), Operand::Indexed("r".into(), vec![Index::List(vec![IndexItem::Expr(e)])])])])),
+        ("nested-in-block", false, Box::new(|e| vec![Stmt::If { cond: tru(), then: blk(vec![Stmt::While { cond: tru(), body: sgl(asg("a", e)) }]), els: None }])),
+        ("return-value", false, Box::new(|e| vec![Stmt::Def { name: "g".into(), params: vec![(ParamTy::Scalar(Ty::Int(None)), "a".into()), (ParamTy::Scalar(Ty::Int(None)), "b".into()), (ParamTy::Qubit(None), "q".into())], ret: Some(Ty::Int(None)), body: vec![Stmt::Return(Some(e))] }])),
+    ];
+    let _ = (&u3, &ix);
+    let mut out = vec![];
+    for (pn, probe) in &probes {
+        for (hn, is_cond, hole) in &holes {
+            let ws: Vec<&W> = if *is_cond { wrappers.iter().take(2).chain(cond_wrappers.iter()).collect() } else { wrappers.iter().collect() };
+            for (wn, w) in ws {
+                let mut prog = prelude();
+                prog.extend(hole(w(probe.clone())));
+                // a later statement shows that the analysis went on normally
+                prog.push(asg("b", id("a")));
+                out.push((format!("probe:{pn}:{wn}:{hn}"), prog));
+            }
+        }
+    }
+    out
+}
